@@ -5,12 +5,17 @@ flip / truncation / byte edit / malformed inner encoding of the signature blob, 
 verify_ssh_sig; expected verdicts come from vmc/refs/sshsig.py (no paramiko).
 """
 import base64
+import copy
 import io
 import os
 import traceback
 
+from cryptography.exceptions import InvalidSignature
+from cryptography.hazmat.primitives.asymmetric.utils import encode_dss_signature
+
 from vmc import core, enum
 from vmc.refs import sshsig as R
+from vmc.refs import ecdsa_nonce as EN
 import paramiko
 from paramiko import RSAKey, ECDSAKey, Ed25519Key, PKey
 from paramiko.message import Message
@@ -29,11 +34,19 @@ META = {
             "list of malformed inner encodings (r,s in {0,-1,n,n+1,r+n,2^600}, missing/extra fields, "
             "Ed25519 lengths 0/63/65/128 and S+L, RSA sig+n/0/n-1, 12 algorithm-name edits) of each genuine "
             "blob under every verifier object: answer must be a bool, never an exception, True only for "
-            "blobs that still denote the genuine (algorithm, signature value).",
+            "blobs that still denote the genuine (algorithm, signature value).  Dimension 'signature integer "
+            "encoding classes' (ECDSA, every key x every signing object through the real sign_ssh_data, the "
+            "library signer replaced by a textbook signer with harness-chosen nonces k=1,2,..): genuine "
+            "signatures whose r resp. s has every leading byte 0x01..0xff at its natural width, is one byte "
+            "short (lead < / >= 0x80), all 7x7 pairs of the boundary classes {01,7f,80,81,ff,short-lo,short-hi} "
+            "(thorough: s one byte short with lead 7f/80, two bytes short) must verify under every object of "
+            "the key; same cases for every VERIF_SEED.",
     "note": "blobs that decode (lenient wire reading: zero-filled short strings, ignored trailing bytes, "
             "RSA leading zeros, mpint leading zeros, -cert algorithm aliases) to the genuine signature "
             "value are an equivalence class for which True and False are both accepted; ECDSA "
-            "signatures are randomised by the library, only their byte shape is normalised; edited blobs that "
+            "signatures are randomised by the library, only their byte shape is normalised (the randomised path "
+            "therefore never decides which r/s shapes are seen - the nonce-enumerated dimension does; its "
+            "signatures are checked to be genuine with cryptography's own verifier before use); edited blobs that "
             "declare an ECDSA r/s length of 2^12..2^18 bytes (zero-filled by Message, quadratic in "
             "util.inflate_long: up to minutes per call) are run under one verifier object per key only "
             "(thorough: from 2^17), lengths of 2^19 and more are left out - counter excluded_slow_inflate_long",
@@ -195,7 +208,7 @@ def run_verify(key, data, blob):
         return "exc", e
 
 
-def judge(acc, kid, oid, alg, data, blob, expect, family, genuine_blob, replay_extra=None):
+def judge(acc, kid, oid, alg, data, blob, expect, family, genuine_blob, replay_extra=None, key_suffix=""):
     """expect: 'true' | 'false' | 'either'.  Records a violation when the real code disagrees."""
     kind = SPEC[kid][1]
     origin, key = KEYS[kid][oid]
@@ -239,8 +252,9 @@ def judge(acc, kid, oid, alg, data, blob, expect, family, genuine_blob, replay_e
                       {"value": repr(val), "verifier": "%s/%s" % (kid, oid), "edit": family}, rep)
         return "nonbool"
     if expect == "true" and val is False:
-        acc.violation("genuine-rejected|%s.verify_ssh_sig|%s|verifier=%s" % (cname, alg or SPEC[kid][1], origin),
-                      {"verifier": "%s/%s" % (kid, oid), "case": family}, rep)
+        acc.violation("genuine-rejected|%s.verify_ssh_sig|%s|verifier=%s%s" % (cname, alg or SPEC[kid][1], origin,
+                                                                                 key_suffix),
+                      {"verifier": "%s/%s" % (kid, oid), "case": family, "blob": blob.hex()}, rep)
     elif expect == "false" and val is True:
         acc.violation("forgery-accepted|%s.verify_ssh_sig|%s|%s" % (cname, alg or SPEC[kid][1], family.split("@")[0]),
                       {"verifier": "%s/%s" % (kid, oid), "case": family, "blob": blob.hex(),
@@ -435,6 +449,151 @@ def work_edits(item, acc):
                         "expected": expect, "observed": res if isinstance(res, (bool, str)) else repr(res)})
 
 
+# ----------------------------------------------------------------------------------------------
+# dimension "signature integer encoding classes": genuine ECDSA signatures enumerated by the byte
+# shape of r and s (vmc/refs/ecdsa_nonce.py), produced through the real sign_ssh_data.
+CAP_K = 20000          # nonces tried per curve
+CAP_I = 1 << 22        # messages tried per s search
+
+
+def sig_msg(i):
+    return b"C35 signature-integer class message #%d" % i
+
+
+def curve_of(kid):
+    return EN.BY_BITS[{"ec256": 256, "ec384": 384, "ec521": 521}[kid.split("-")[0]]]
+
+
+class NonceSigner:
+    """Stands in for key.signing_key (a cryptography EllipticCurvePrivateKey) on a *copy* of a key
+    object: same .sign(data, signature_algorithm) -> DER interface, textbook ECDSA with the nonce the
+    harness chose.  Every signature is checked with the library's own verifier (genuine or harness bug)."""
+
+    def __init__(self, real, curve):
+        self.real, self.curve = real, curve
+        self.d = real.private_numbers().private_value
+        self.k = None
+        self.last = None
+        self.bad = None
+
+    def sign(self, data, signature_algorithm):
+        rs = EN.sign(self.curve, self.d, self.k, data)
+        if rs is None:
+            raise RuntimeError("harness: unusable nonce %r" % (self.k,))
+        der = encode_dss_signature(*rs)
+        try:
+            self.real.public_key().verify(der, data, signature_algorithm)
+        except InvalidSignature:
+            self.bad = "nonce %d: textbook signature rejected by cryptography" % self.k
+        self.last = rs
+        return der
+
+    def __getattr__(self, name):
+        return getattr(self.real, name)
+
+
+def nonce_copy(obj, curve):
+    c = copy.copy(obj)
+    ns = NonceSigner(obj.signing_key, curve)
+    c.signing_key = ns
+    return c, ns
+
+
+RT = {}   # curve -> ({target: (k, r)}, last k)
+
+
+def r_table_for(curve):
+    if curve not in RT:
+        RT[curve] = EN.r_table(curve, EN.SWEEP + EN.SHORT, CAP_K)
+    return RT[curve]
+
+
+def sig_plan(kid, tier):
+    """-> (cases [(label, nonce k, message index)], stats) for one ECDSA key; deterministic, no VERIF_SEED."""
+    curve = curve_of(kid)
+    d = primary(kid).signing_key.private_numbers().private_value
+    rt, lastk = r_table_for(curve)
+    cases, missing = [], []
+    max_i = 0
+    for t in EN.SWEEP + EN.SHORT:
+        if t in rt:
+            cases.append(("r=" + EN.target_label(t), rt[t][0], 0))
+        else:
+            missing.append("r=" + EN.target_label(t))
+    st = EN.SWEEP + EN.SHORT + (EN.RARE_S if tier == "thorough" else [])
+    found, lasti = EN.s_search(curve, d, 1, EN.r_of(curve, 1), st, sig_msg, CAP_I)
+    max_i = max(max_i, lasti)
+    for t in st:
+        if t in found:
+            cases.append(("s=" + EN.target_label(t), 1, found[t][0]))
+        else:
+            missing.append("s=" + EN.target_label(t))
+    for tr in EN.BOUNDARY:
+        if tr not in rt:
+            missing.append("r=%s,s=*" % EN.target_label(tr))
+            continue
+        k, r = rt[tr]
+        found, lasti = EN.s_search(curve, d, k, r, EN.BOUNDARY, sig_msg, CAP_I)
+        max_i = max(max_i, lasti)
+        for ts in EN.BOUNDARY:
+            lab = "r=%s,s=%s" % (EN.target_label(tr), EN.target_label(ts))
+            if ts in found:
+                cases.append((lab, k, found[ts][0]))
+            else:
+                missing.append(lab)
+    return cases, {"cases": len(cases), "nonces_tried": lastk, "max_nonce_used": max(c[1] for c in cases),
+                   "max_message_index": max_i, "classes_not_reached": missing}
+
+
+def sig_suffix(curve, rs, blob):
+    """minimal input class for the finding key: the integer(s) sign_ssh_data emitted differently from
+    what was signed, else the classes of both integers."""
+    sem = R.semantics("ecdsa", blob)
+    bad = [n + "(" + EN.coarse(curve, v) + ")" for n, v, got in (("r", rs[0], sem[2]), ("s", rs[1], sem[3])) if got != v]
+    if bad:
+        return "|emitted-integer-differs:" + ",".join(bad)
+    return "|ints:r(%s),s(%s)" % (EN.coarse(curve, rs[0]), EN.coarse(curve, rs[1]))
+
+
+def work_sigints(item, acc):
+    _, kid, cases = item
+    curve = curve_of(kid)
+    signers = [(soid, sorigin) + nonce_copy(obj, curve) for soid, (sorigin, obj) in KEYS[kid].items() if obj.can_sign()]
+    verifiers = [(kid2, oid2) for kid2 in KEYS if same_key(kid, kid2) for oid2 in KEYS[kid2]]
+    for lab, k, i in cases:
+        data = sig_msg(i)
+        blobs = {}      # distinct blob -> (first signer oid, (r, s)); verification depends on the blob only
+        for soid, sorigin, skey, ns in signers:
+            ns.k, ns.bad = k, None
+            try:
+                blob = skey.sign_ssh_data(data).asbytes()
+            except Exception as e:   # noqa
+                if str(e).startswith("harness:"):
+                    raise
+                acc.violation("sign-raises|%s.sign_ssh_data|%s|signer=%s" % (type(skey).__name__, type(e).__name__, sorigin),
+                              {"exception": repr(e), "signer": "%s/%s" % (kid, soid), "case": lab},
+                              {"kid": kid, "oid": soid, "alg": None, "data_hex": data.hex(), "mode": "sigints-sign",
+                               "nonce": k, "gen_pem": GEN_PEM.get(kid)})
+                continue
+            if ns.bad:
+                raise RuntimeError("harness: " + ns.bad)
+            acc.count("sigints_signatures")
+            blobs.setdefault(blob, (soid, ns.last))
+        acc.count("sigints_cases")
+        for blob, (soid, rs) in blobs.items():
+            acc.count("sigints_distinct_blobs")
+            suffix = sig_suffix(curve, rs, blob)
+            for kid2, oid2 in verifiers:
+                judge(acc, kid2, oid2, None, data, blob, "true", "nonce-signed(%s; signer=%s)" % (lab, soid), blob,
+                      {"mode": "sigints", "nonce": k, "signer_kid": kid, "signer_oid": soid}, suffix)
+                acc.nt(("s", kid, lab, kid2, oid2))
+        if lab in ("r=80", "s=short1-hi") and len(acc.samples) < 7:
+            blob, (soid, rs) = next(iter(blobs.items()))
+            acc.sample({"case": "nonce-signed " + lab, "key": kid, "nonce": k, "data": data.decode(),
+                        "r": "%x" % rs[0], "s": "%x" % rs[1], "blob": blob.hex(),
+                        "signers": [x[0] for x in signers], "verifiers": ["%s/%s" % v for v in verifiers]})
+
+
 def full_for(tier, mi, oid):
     """complete single-point edit set?  thorough: always.  quick: message b"a", and not for the two
     public-bytes objects that are built by the very same constructor call as from_type_string."""
@@ -444,6 +603,8 @@ def full_for(tier, mi, oid):
 def work(item, acc):
     if item[0] == "genuine":
         work_genuine(item, acc)
+    elif item[0] == "sigints":
+        work_sigints(item, acc)
     else:
         work_edits(item, acc)
 
@@ -456,7 +617,11 @@ def main(tier):
         "malformed inner encodings and algorithm names (see counters edit_*); expected verdict from "
         "vmc/refs/sshsig.py; nontrivial = distinct genuine/different-key/different-data pairs plus "
         "distinct edited cases whose blob still names a valid algorithm for the verifier "
-        "(so decoding or the cryptographic check has to reject it)",
+        "(so decoding or the cryptographic check has to reject it); dimension signature-integer "
+        "encoding classes: case = (ECDSA key, class of r, class of s) signed with an enumerated nonce by every "
+        "signing object through the real sign_ssh_data, each distinct blob verified under every object of "
+        "the key (counters sigints_*; classes per key in extra.signature_integer_classes); nontrivial += "
+        "distinct (key, class pair, verifier object)",
         ["cryptography / PyNaCl primitives trusted", "ECDSA signatures are randomised by the library: "
          "edit positions are fixed (shape-normalised) but the signature bytes differ between runs",
          "blobs that decode leniently to the genuine (algorithm, value) pair may verify either way",
@@ -475,7 +640,25 @@ def main(tier):
                     n = len(edits(kid, alg, blob, tier, full=full_for(tier, mi, oid)))
                     for lo in range(0, n, step):
                         items.append(("edits", kid, alg, mi, oid, tier, lo, min(n, lo + step)))
+    plans = {}
+    for kid, kind in ((k[0], k[1]) for k in KEYSPEC):
+        if kind != "ecdsa":
+            continue
+        cases, st = sig_plan(kid, tier)
+        plans[kid] = st
+        if st["classes_not_reached"]:
+            ck.cap_hit("signature-integer classes not reached for %s within %d nonces / %d messages: %s"
+                       % (kid, CAP_K, CAP_I, st["classes_not_reached"]))
+        for ch in enum.chunks(cases, 10):
+            items.append(("sigints", kid, ch))
     ck.merge(core.pmap(items, work))
+    ck.extra["signature_integer_classes"] = {
+        "definition": "class of a positive integer = (bytes short of its natural width, leading byte of its minimal "
+                      "big-endian form); r classes from nonces k=1,2,.. (r = x(kG) mod n), s classes from messages "
+                      "'C35 signature-integer class message #i', i=0,1,..; r sweep: 255 leads + short-lo/short-hi with "
+                      "message #0; s sweep: same (thorough: + short1-7f, short1-80, short2-lo, short2-hi) with nonce 1; "
+                      "pairs: {01,7f,80,81,ff,short1-lo,short1-hi}^2",
+        "per_key": plans}
     ck.extra["keys"] = {kid: sorted("%s(%s)" % (o, KEYS[kid][o][0]) for o in KEYS[kid]) for kid in KEYS}
     ck.extra["bound"] = "12 keys; all single-bit flips of each genuine blob for message b'a' (thorough: all 3 messages)"
     return ck.finish()
@@ -488,6 +671,26 @@ def replay(rec):
     origin, key = objs[r["oid"]]
     data = bytes.fromhex(r["data_hex"])
     print("key %s obtained via %s (%s): %r" % (kid, r["oid"], origin, type(key).__name__))
+    if r.get("mode") in ("sigints", "sigints-sign"):
+        skid = r.get("signer_kid", kid)
+        sobjs = objs if skid == kid else make_objs(skid, r.get("gen_pem"))
+        soid = r.get("signer_oid", r["oid"])
+        skey, ns = nonce_copy(sobjs[soid][1], curve_of(skid))
+        ns.k = r["nonce"]
+        try:
+            blob2 = skey.sign_ssh_data(data).asbytes()
+        except Exception as e:   # noqa
+            print("sign_ssh_data (%s/%s, nonce %d) raised %r" % (skid, soid, ns.k, e))
+            return 1
+        print("signed by %s/%s with nonce %d: r=%x s=%x%s" % (skid, soid, ns.k, ns.last[0], ns.last[1],
+                                                              "" if not ns.bad else "  HARNESS: " + ns.bad))
+        print("blob=%s" % blob2.hex())
+        print("reference reading of the blob: r=%x s=%x" % R.semantics("ecdsa", blob2)[2:4])
+        if r["mode"] == "sigints-sign":
+            return 0
+        how, val = run_verify(key, data, blob2)
+        print("verify_ssh_sig -> %s %r" % (how, val))
+        return 0 if (how == "ret" and val is True) else 1
     if r.get("mode") == "sign":
         try:
             _sign(key, SPEC[kid][1], r["alg"], data)
